@@ -353,11 +353,23 @@ def _convert_condbr(
         phi = val_map[arg]
         assert isinstance(phi, PhiInstr)
         phi.add_incoming(val_map[val], current_block)
+    else_target = block_map[else_block]
+    else_pred = current_block
+    if (
+        then_block is else_block
+        and else_block.args
+        and tuple(op.then_arguments) != tuple(op.else_arguments)
+    ):
+        # A PHI node cannot list the same predecessor twice with different values:
+        # route the else edge through a forwarding block.
+        else_pred = builder.function.append_basic_block()
+        ir.IRBuilder(else_pred).branch(else_target)
+        else_target = else_pred
     for arg, val in zip(else_block.args, op.else_arguments):
         phi = val_map[arg]
         assert isinstance(phi, PhiInstr)
-        phi.add_incoming(val_map[val], current_block)
-    builder.cbranch(val_map[op.cond], block_map[then_block], block_map[else_block])
+        phi.add_incoming(val_map[val], else_pred)
+    builder.cbranch(val_map[op.cond], block_map[then_block], else_target)
 
 
 def _convert_masked_store(
